@@ -223,7 +223,12 @@ impl<X: Copy + Default + Sync, W: Copy + Default + Sync, Y: Copy + Default>
         input_zero: Option<X>,
         kernel_zero: Option<&[W]>,
     ) {
-        debug_assert_eq!(input.stride(2), 1, "last dim of input is not contiguous");
+        // nb. The stride of a size-1 dimension is irrelevant and may have any
+        // value in a contiguous tensor.
+        debug_assert!(
+            input.size(2) <= 1 || input.stride(2) == 1,
+            "last dim of input is not contiguous"
+        );
         debug_assert_eq!(output.stride(2), 1, "last dim of output is not contiguous");
 
         let [_, out_h, _out_w] = output.shape();
